@@ -25,6 +25,7 @@ def strOfBytes (b : List Byte) : String := String.ofList (b.map Char.ofNat)
 
 structure DState where
   vars : List (Var Float)
+  progName : List Byte := strBytes "c16/obj.c"
   file : Option (List Byte) := none
   out : List String := []      -- newest first
 
@@ -35,7 +36,21 @@ def layoutM : List (Var Float) :=
 
 def DState.emit (s : DState) (l : String) : DState := { s with out := l :: s.out }
 
-def progName : List Byte := strBytes "c16/obj.c"
+/-- layout of /c16/many: w0 .. w23, every fourth one static -/
+def layoutMany : List (Var Float) :=
+  (List.range 24).map (fun i => ⟨strBytes s!"w{i}", i % 4 == 3, .int 0⟩)
+
+/-- the file save_object / restore_object derive from their argument: a trailing ".c" is dropped; unless the
+    argument (then) still ends in the save extension, ".o" is appended; a leading "/" is relative to the mudlib -/
+def saveName (file : List Byte) : List Byte :=
+  let n := file.length
+  let base :=
+    if n ≥ 2 ∧ file.drop (n - 2) = [46, 99] then file.take (n - 2) ++ [46, 111]
+    else if n ≥ 2 ∧ file.drop (n - 2) = [46, 111] then file
+    else file ++ [46, 111]
+  match base with
+  | 47 :: r => r
+  | b => b
 
 def doRestoreText (s : DState) (t : List Byte) : DState :=
   match restoreVariable FloatIO utf8Len t with
@@ -54,13 +69,22 @@ def doRoundtrip (s : DState) (v : V) : DState :=
   | .crash => s.emit "crash model"
 
 /-- canonical print of the save file (every value with sorted mapping entries) -/
-def fileCanon (vars : List (Var Float)) (zeros : Bool) : List Byte :=
+def fileCanon (progName : List Byte) (vars : List (Var Float)) (zeros : Bool) : List Byte :=
   saveFileText FloatIO progName zeros (vars.map (fun v => { v with val := canonOrder v.val }))
 
 def classify (old new_ : Option (List Byte)) (cur : Option (List Byte)) : String :=
   match cur with
   | none => "none"
   | some c => if some c == old then "old" else if some c == new_ then "new" else "other"
+
+def runRo (s : DState) (nc : String) : DState :=
+  let (ret, out) := restoreObject FloatIO utf8Len (nc != "0") s.file s.vars
+  let pr (vars : List (Var Float)) : String := "vars " ++ pv false (.arr (Vals.ofList (vars.map (·.val))))
+  match out with
+  | .done vars => ({ s with vars := vars }.emit s!"ro {ret}").emit (pr vars)
+  | .error m vars => (({ s with vars := vars }.emit ("err " ++ m)).emit "roerr").emit (pr vars)
+  | .crash => s.emit "crash model"
+  | .stuck => s.emit "stuck model"
 
 def runCmd (s : DState) (line : String) : DState :=
   match toks line with
@@ -84,27 +108,41 @@ def runCmd (s : DState) (line : String) : DState :=
                         ⟨strBytes "vb", false, b⟩, ⟨strBytes "vs", true, st⟩, ⟨strBytes "vo", false, .obj⟩,
                         ⟨strBytes "vc", false, c⟩] }
     | _, _, _, _, _ => s.emit "badval"
+  | ["use", o] =>
+    if o == "many" then { s with vars := layoutMany, progName := strBytes "c16/many.c" }
+    else { s with vars := layoutM, progName := strBytes "c16/obj.c" }
+  | ["setm", vt] =>
+    match parseValue vt with
+    | some (.arr xs) =>
+      if xs.length == s.vars.length then
+        { s with vars := (s.vars.zip xs.toList).map (fun (p : Var Float × V) => { p.1 with val := p.2 }) }
+      else s.emit "seterr"
+    | _ => s.emit "badval"
+  | ["son", nm, _, path] =>
+    let name := if nm == "-" then [] else bytesOfHex nm
+    if saveObjectCrash FloatIO s.vars then s.emit "crash model"
+    else s.emit s!"so 1 made={if saveName name == bytesOfHex path then 1 else 0}"
   | ["so", z] =>
     let zeros := z != "0"
     if saveObjectCrash FloatIO s.vars then s.emit "crash model"
+    else if s.vars.any (fun v => !v.isStatic && saveVariable FloatIO v.val == .tooDeep) then
+      -- too_deep_save_error() in the middle of save_object_recurse: the LPC error leaves the save file alone
+      let s := (s.emit s!"err Mappings and/or arrays nested too deep ({maxDepth}) for save_object").emit "so -1"
+      match s.file with
+      | none => s.emit "file none"
+      | some _ => s.emit "file ?"
     else
-      let s := { s with file := some (saveFileText FloatIO progName zeros s.vars) }
-      (s.emit "so 1").emit ("file " ++ hexOf (fileCanon s.vars zeros))
+      let s := { s with file := some (saveFileText FloatIO s.progName zeros s.vars) }
+      (s.emit "so 1").emit ("file " ++ hexOf (fileCanon s.progName s.vars zeros))
   | ["wf", h] => { s with file := some (bytesOfHex h) }
   | ["wf"] => { s with file := some [] }
   | ["rm"] => { s with file := none }
-  | ["ro", nc] =>
-    let (ret, out) := restoreObject FloatIO utf8Len (nc != "0") s.file s.vars
-    let pr (vars : List (Var Float)) : String := "vars " ++ pv false (.arr (Vals.ofList (vars.map (·.val))))
-    match out with
-    | .done vars => ({ s with vars := vars }.emit s!"ro {ret}").emit (pr vars)
-    | .error m vars => (({ s with vars := vars }.emit ("err " ++ m)).emit "roerr").emit (pr vars)
-    | .crash => s.emit "crash model"
-    | .stuck => s.emit "stuck model"
+  | ["rox", nc, _] => runRo s nc
+  | ["ro", nc] => runRo s nc
   | [c, z] =>
     if c == "cp" ∨ c == "cf" then
       let zeros := z != "0"
-      let chunks := headerLine progName :: saveLines FloatIO zeros s.vars
+      let chunks := headerLine s.progName :: saveLines FloatIO zeros s.vars
       let n := scriptLen chunks
       let fs0 : FS := { file := s.file, tmp := none }
       let newc := some chunks.flatten
